@@ -1,0 +1,58 @@
+//go:build verif
+
+package wrr
+
+// Contracts checked by /verif (contract-based deductive verification).
+// This file is comment-only; it is compiled only with -tags=verif.
+
+// ---- C38: weighted random choice ------------------------------------------------
+
+// accumulated weight before item i
+//@ spec func accBefore(rw *randomWRR, i int) int64 {
+//@   if i == 0 { return 0 }
+//@   return rw.items[i-1].accumulatedWeight
+//@ }
+
+// Representation invariant, in three parts: items are non-nil with non-negative
+// weights; accumulatedWeight is the running sum of the weights; equalWeights
+// holds only if all weights are equal.
+//@ spec func wrrItems(rw *randomWRR) bool {
+//@   return forall(func(i int) bool { return implies(0 <= i && i < len(rw.items), rw.items[i] != nil && rw.items[i].weight >= 0) })
+//@ }
+//@ spec func wrrSums(rw *randomWRR) bool {
+//@   return forall(func(i int) bool { return implies(0 <= i && i < len(rw.items), Z(rw.items[i].accumulatedWeight) == Z(accBefore(rw, i)) + Z(rw.items[i].weight)) })
+//@ }
+//@ spec func wrrEqual(rw *randomWRR) bool {
+//@   return forall(func(i int) bool { return implies(0 <= i && i < len(rw.items) && rw.equalWeights, rw.items[i].weight == rw.items[0].weight) })
+//@ }
+//@ spec func wrrInv(rw *randomWRR) bool { return wrrItems(rw) && wrrSums(rw) && wrrEqual(rw) }
+
+// Next: with r the value drawn from the random source (uniform in [0, sum)),
+// the item returned is the unique one whose half-open weight interval
+// [accBefore, accBefore+weight) contains r; so item i is returned for exactly
+// weight[i] of the sum possible draws, and a zero-weight item is never
+// returned. With equal weights the draw is the index itself.
+//@ func (*randomWRR).Next
+//@   prop C38
+//@   nopanic
+//@   requires rw != nil && wrrInv(rw)
+//@   requires len(rw.items) == 0 || rw.equalWeights || rw.items[len(rw.items)-1].accumulatedWeight > 0
+//@   ensures implies(len(rw.items) == 0, item == nil)
+//@   ensures implies(len(rw.items) > 0 && rw.equalWeights, 0 <= lastrand() && lastrand() < int64(len(rw.items)) && item == rw.items[lastrand()].item)
+//@   ensures implies(len(rw.items) > 0 && !rw.equalWeights, exists(func(i int) bool {
+//@     return 0 <= i && i < len(rw.items) && item == rw.items[i].item &&
+//@       accBefore(rw, i) <= lastrand() && lastrand() < rw.items[i].accumulatedWeight && rw.items[i].weight > 0 }))
+
+// Add appends one item whose accumulated weight continues the running sum.
+//@ func (*randomWRR).Add
+//@   prop C38
+//@   nopanic
+//@   requires rw != nil && wrrInv(rw) && weight >= 0
+//@   requires len(rw.items) == 0 || Z(rw.items[len(rw.items)-1].accumulatedWeight) + Z(weight) <= 9223372036854775807
+//@   ensures len(rw.items) == old(len(rw.items)) + 1
+//@   ensures rw.items[len(rw.items)-1] != nil && rw.items[len(rw.items)-1].item == item && rw.items[len(rw.items)-1].weight == weight
+//@   ensures Z(rw.items[len(rw.items)-1].accumulatedWeight) == Z(old(accBefore(rw, len(rw.items)))) + Z(weight)
+//@   ensures forall(func(i int) bool { return implies(0 <= i && i < old(len(rw.items)), rw.items[i] == old(rw.items[i]) && fresh(rw.items[len(rw.items)-1]) && !fresh(rw.items[i])) })
+//@   ensures wrrItems(rw)
+//@   ensures wrrSums(rw)
+//@   ensures wrrEqual(rw)
